@@ -102,6 +102,13 @@ pub fn assume(c: bool) {
     }
 }
 
+/// true in the native replay binary: stubs are not active there, so assertions about recorded stub
+/// calls are replaced by assertions about the real results (see the harnesses that use it)
+#[inline(always)]
+pub fn native() -> bool {
+    !cfg!(kani)
+}
+
 /// Reachability witness: every harness ends with `reached()`.
 #[cfg(kani)]
 #[inline(always)]
